@@ -28,6 +28,7 @@ SRC_LAYOUTS = [
     ["# t", "", "N", MENTION, ""],
     ["# t", "", MENTION, "N", ""],          # the ZID is mentioned by an EARLIER note
     ["# t", "", MENTION_END, "N", ""],
+    ["# t", "", "- %sA sibling whose ZID extends the moved one" % Z1, "N", "- %sB another" % Z1, ""],
 ]
 DST_LAYOUTS = [
     None,                                   # missing: created from the template (or not)
